@@ -58,6 +58,45 @@ theorem paths_agree (ls : LeafScore) (so so' : ShapeOracle) (hso : ValidOracle s
     rw [this] at hp
     exact hp
 
+/-- **`Query.docs` overrides.**  `Require.docs` evaluates `And([a, b])`, `AndMaybe.docs` evaluates its first
+    operand (recursively through that operand's own `docs`), all other classes their own matcher in the
+    boolean context: the query actually evaluated (`docsForm q`) has the same answer as `q`, and running
+    its per-segment matchers in the boolean context yields exactly `answer q idx`.  (The real method runs
+    one matcher on the top-level searcher; for a multi-segment reader that is a `MultiMatcher` over the
+    per-segment postings — the matcher family's `multi` node, C11 `multi_constructor_wf` — here the run is
+    segment by segment.) -/
+theorem docs_overrides (ls : LeafScore) (so : ShapeOracle) (hso : ValidOracle so) (idx : Index)
+    (hok : IndexOK ls idx) (q : Query) (hq : PosQ q) :
+    answer (docsForm q) idx = answer q idx ∧
+    (run ls so boolCtx (docsForm q) idx).map (·.id) = answer q idx := by
+  have hsat : ∀ (q : Query) (d : Doc), sat (docsForm q) d = sat q d := by
+    intro q
+    induction q using docsForm.induct with
+    | case1 a b => intro d; simp [docsForm, sat, satAll]
+    | case2 a b ih => intro d; simp only [docsForm, sat]; exact ih d
+    | case3 q h1 h2 => intro d; rw [docsForm]; exact h1; exact h2
+  have hpos : ∀ q : Query, PosQ q → PosQ (docsForm q) := by
+    intro q
+    induction q using docsForm.induct with
+    | case1 a b => intro h; simp only [PosQ] at h; simp only [docsForm, PosQ, PosQs]; exact ⟨by decide +kernel, h.1, h.2, trivial⟩
+    | case2 a b ih => intro h; simp only [PosQ] at h; simp only [docsForm]; exact ih h.1
+    | case3 q h1 h2 => intro h; rw [docsForm]; exact h; exact h1; exact h2
+  have hans : answer (docsForm q) idx = answer q idx := by
+    unfold answer hits
+    generalize 0 = off
+    induction idx generalizing off with
+    | nil => rfl
+    | cons s rest ih =>
+      simp only [hitsFrom, List.map_append]
+      rw [ih (fun s hs => hok s (List.mem_cons_of_mem _ hs))]
+      congr 1
+      simp only [shift, segHits, List.map_map]
+      have : s.live.filter (fun i => sat (docsForm q) (s.doc i)) = s.live.filter (fun i => sat q (s.doc i)) :=
+        List.filter_congr (fun i _ => hsat q (s.doc i))
+      rw [this]
+      rfl
+  exact ⟨hans, by rw [segments ls so hso idx hok (docsForm q) (hpos q hq) boolCtx, hans]⟩
+
 /-! ### the hypotheses are satisfiable: a two-segment index with a deletion -/
 
 def tok (t : Nat) (p : Nat) : Token := ⟨[t], p, 1⟩
@@ -82,6 +121,13 @@ example : IndexOK freqLeaf exIdx ∧ PosQ exQ ∧ ValidOracle balancedOracle ∧
     (run freqLeaf balancedOracle ⟨false, true⟩ exQ exIdx).map (·.id) = [1, 4] :=
   ⟨exIdx_ok, exQ_pos, balancedOracle_valid, by decide,
    by rw [segments freqLeaf balancedOracle balancedOracle_valid exIdx exIdx_ok exQ exQ_pos]; decide⟩
+
+/-- `docs_overrides` on a query where the overrides matter: `(aa ANDMAYBE cc) REQUIRE bb` is evaluated as
+    `And([aa ANDMAYBE cc, bb])` -/
+example : docsForm (.andMaybe (.require (.term "t" [97] 1) (.term "t" [98] 1)) (.term "t" [99] 1)) =
+      .and [.term "t" [97] 1, .term "t" [98] 1] 1 ∧
+    answer (.andMaybe (.require (.term "t" [97] 1) (.term "t" [98] 1)) (.term "t" [99] 1)) exIdx = [1] := by
+  refine ⟨rfl, by decide⟩
 
 /-! ### the positivity hypothesis is needed: a zero boost makes the array union drop documents
 (`ArrayUnionMatcher` keeps a document only if its accumulated score is positive — except the first
